@@ -4,6 +4,21 @@ import json
 
 CHECKS = {
 
+ "C11": dict(
+  engine="E1",
+  technique="exhaustive enumeration of dependency graphs x registration orders x per-root behaviours on the real eval.Context / RunDSL, against independent topological-order and phase-barrier definitions",
+  text="Logging test roots and expressions (Root, Source, Preparer, Validator, Finalizer) are run through the real eval.Register / Context.Roots / RunDSL for EVERY directed graph without self-loops on up to 4 roots x every registration order, all DAGs on 5 roots x all orders, self-dependency graphs, and every behaviour vector from a 16-entry menu (append expressions to same/later/earlier sets, register roots while executing with and without dependencies, errors in DSL and Validate phases) on up to 3 roots; thorough adds one-back-edge graphs on 5 roots and all 3.78M labelled DAGs on 6 roots. Oracle: each root once, dependencies first, cycles reported with zero callbacks, global phase barrier over the callback log, appended expressions and registered roots receive all phases, all errors of a phase returned together, no finalize after failure.",
+  design_ref="DESIGN.md section 3 C11",
+  note="Dependencies only name registered roots; behaviour after a failed DSL phase other than 'no finalize' is not asserted (the statement is silent).",
+ ),
+ "C12": dict(
+  engine="E1",
+  technique="exhaustive enumeration of DSL call trees (context x function x argument menus built by reflection from the dsl package's own signatures) executed on the real engine in worker processes under recover and a watchdog",
+  text="The table of all exported goa DSL functions is generated at check time from /repo/dsl by go/parser; every function is called in each of 47 contexts (complete valid designs with one hole) with the complete product of per-type argument menus (depth 1, about 2M programs), every ordered pair per context with vectors chosen per distinct depth-1 outcome (depth 2), thorough adds triples, plus dangling-reference and (mutually) recursive type families. Each program must end accepted or with a non-empty list of located errors: never a panic, a dead process or a hang; an accepted design of the dangling family must not contain the never-defined name.",
+  design_ref="DESIGN.md section 3 C12",
+  note="Argument values outside the menus and nesting deeper than the scaffolds are not covered; depth-2/3 vectors are selected from depth-1 outcome classes rather than full menus.",
+ ),
+
  "C17": dict(
   engine="E1+E3",
   technique="exhaustive enumeration of constructive format grammars / pattern x value products / call histories, plus stateless DFS over all thread interleavings of the real ValidatePattern under a controlled scheduler with a happens-before race oracle",
